@@ -297,7 +297,7 @@ func countFields(ast map[string]any, n int, data []byte, p int, out *[]int) (int
 	}
 	sub := func(v any) map[string]any { m, _ := v.(map[string]any); return m }
 	switch ast["k"] {
-	case "fixed":
+	case "fixed", "enum":
 		return p + n*num(ast["w"]), true
 	case "bool", "nothing":
 		return p + n, true
